@@ -30,6 +30,8 @@ def run(ctx: Context) -> None:
     )
     ctx.rule("C04b", "integer carriers of binomial weights in the permanent kernels have at least the bits the stated multiplicity range needs")
     cxx.check_widths(ctx, "C04b", TOTAL)
+    ctx.rule("C04d", "the native kernels branch on computed floating values only through exact tests: no comparison with a non-zero floating constant (absolute tolerance)")
+    cxx.check_thresholds(ctx, "C04d")
     ctx.rule("C04c", "a helper that rescales its matrix argument in place and returns (matrix, factor) returns, on every path, the factor it applied on that path (1 when it applied none)")
     clause_c(ctx)
     ctx.assume("LP64 data model (int 32 bits, long/int64_t 64 bits)")
